@@ -52,6 +52,8 @@ def gen(ctx):
         k = ctx.rng.randint(0, 9)
         ops = ops_for(k)
         cases.append({"k": k, "ops": [list(ctx.rng.choice(ops)) for _ in range(ctx.rng.randint(3, 7))], "view": ctx.rng.choice(["values", "locations", "items", "pointers"])})
+    for c in cases:
+        c["dup"] = c["k"] >= 2 and ctx.rng.random() < 0.4
     # tee(0) yields no query to continue with: a script ends at its first successful tee(0)
     for c in cases:
         for i, op in enumerate(c["ops"]):
@@ -69,7 +71,13 @@ def run_impl(case, defer=False):
     k = case["k"]
     # the source of the query object and the way child queries are read vary with the case (deterministically)
     h = (k * 31 + len(case["ops"]) * 7 + sum(len(str(o)) for o in case["ops"])) % 4
-    q = jsonpath.query("$[*]", list(range(k))) if h % 2 == 0 else jsonpath.compile("$[*]").query(list(range(k)))
+    if case.get("dup") and k >= 2:
+        # the same node may occur more than once in a nodelist: k matches over ceil(k/2) distinct nodes
+        m = (k + 1) // 2
+        text, doc = "$[" + ",".join(str(j % m) for j in range(k)) + "]", list(range(m))
+    else:
+        text, doc = "$[*]", list(range(k))
+    q = jsonpath.query(text, doc) if h % 2 == 0 else jsonpath.compile(text).query(doc)
 
     def read(child):
         if h == 0:
@@ -136,6 +144,26 @@ def run_impl(case, defer=False):
     return {"outs": outs, "final": fin}
 
 
+def _values(case, r):
+    """The model and the list specification name matches by position; the implementation's views show their values."""
+    k = case["k"]
+    if not (case.get("dup") and k >= 2):
+        return r
+    m = (k + 1) // 2
+
+    def f(x):
+        if isinstance(x, bool) or x is None:
+            return x
+        if isinstance(x, int):
+            return x % m
+        if isinstance(x, list):
+            return [f(y) for y in x]
+        if isinstance(x, dict):
+            return {a: (b if a == "err" else f(b)) for a, b in x.items()}
+        return x
+    return f(r)
+
+
 def evaluate(ctx, cases):
     reqs = [{"op": "fluent.run", "k": c["k"], "ops": c["ops"]} for c in cases]
     outs = ctx.driver.run(reqs, jobs=ctx.jobs)
@@ -144,7 +172,7 @@ def evaluate(ctx, cases):
         impl = run_impl(c)
         ctx.case(repr(c), c["k"] > 0 and bool(c["ops"]), sample=c)
         ctx.count("len:" + str(min(len(c["ops"]), 4)))
-        mod, spec = m["model"], m["spec"]
+        mod, spec = _values(c, m["model"]), _values(c, m["spec"])
         if any(op[0] == "tee" and op[1] == 0 for op in c["ops"]):
             ctx.count("tee0")
         if impl != mod:
